@@ -9,6 +9,16 @@ script: constructor (keyword and positional), copy_with / deep_copy_with over re
 validate_types (also after mutating a list held by a field), setattr / delattr of every field and of a
 new name, ==, <, <=, >, >=, hash.  Streams: valid / near-miss (one corrupted position) / malformed.
 
+Two dimensions live on the implementation side only (the model is evaluated on the same lowered case and is, by construction,
+indifferent to both - that indifference IS the specification):
+  * field identifiers: the model's field names are opaque tokens; `case['names']` renders some of them as real identifiers
+    from NAME_POOL (names a helper of the library is likely to use for its own parameters: deep, cls, kwargs, changes, ...)
+    instead of f<token>;
+  * call site: an operation whose trailing element is {'nest': mode} is executed WHILE the user-defined __post_init__ of a
+    type-safe dataclass is running (a carrier class of the worker: plain / slots / stacked wrappers; an instance of the case's
+    own class; or in a second thread started by such a hook).  The property quantifies over construction paths, not over call
+    sites: the observation must be the one of the same operation made at top level (which is what the model computes).
+
 The real classes are exercised by harness/w_dataclass.py, the model (Model/Dataclass.v under the
 regenerated decorator program and the regenerated checker tables) is evaluated inside Coq by
 Model/DataclassEval.eval_case on the same lowered case; `judge` compares observation lists
@@ -33,6 +43,17 @@ DPARAM = {'type_safe': 'PTypeSafe', 'order': 'POrder', 'kw_only': 'PKwOnly', 'sl
 KIND_OF = {'list': 0, 'dict': 1, 'set': 10, 'tuple': 12, 'deque': 13, 'defaultdict': 14, 'ordereddict': 15}
 FACTORY_KIND = {'list': 0, 'dict': 1, 'set': 10, 'deque': 13}
 CMPOPS = ['eq', 'lt', 'le', 'gt', 'ge']
+# identifiers a helper inside the library is likely to use for a parameter or local of its own.  A field may legally carry
+# any of them (dataclasses itself copes with every one, `self` included).
+# NOT in the pool: `self`.  Suspected defect of the unchanged library (reported to the coordinator): copy_with / deep_copy_with
+# are `def copy_with(self, **kwargs)`, so on a class with a field named `self` x.copy_with(self=v) raises
+# TypeError("got multiple values for argument 'self'") although the constructor accepts self=v (repair: `self, /, **kwargs`).
+NAME_POOL_CORE = ['deep', 'cls', 'kwargs', 'changes', 'other', 'name', 'value', 'field', 'fields', 'obj', 'instance', 'memo']
+NAME_POOL_MORE = ['args', 'kw', 'key', 'default', 'init', 'copy', 'replace', 'context', '_context', 'props', 'method',
+                  'new_class', 'cls_', 'type_', 'err', 'type_vars', 'order', 'slots', 'kw_only', 'type_safe', 'frozen',
+                  'current_values', 'result', 'shallow', 'strict', 'validate', 'depth', 'frame']
+NEST_MODES = ('hook', 'hook-slots', 'hook-stacked', 'same', 'thread')
+NESTABLE = ('ctor', 'copy', 'deep', 'validate')
 
 
 # ------------------------------------------------------------------------------------------ values
@@ -674,7 +695,41 @@ def gen_case(rng, tier, stream):
                 br += [['deep' if meth == 'copy' and len(init_fields) <= 3 else 'copy', nreg, []]]
             branches.append(br)
     case.update({'atoms': L.atoms, 'heap': L.heap, 'prefix': prefix, 'branches': branches, 'target': target})
+    gen_names(rng, case)
+    gen_nesting(rng, case)
     return case
+
+
+def gen_names(rng, case):
+    """render some field tokens (and sometimes the unknown keyword of the malformed stream) as identifiers of the pool"""
+    case['names'] = {}
+    if rng.random() >= 0.35:
+        return
+    toks = sorted({f['name'] for k in case['classes'] for f in k['fields']})
+    if rng.random() < 0.3:
+        toks.append(UNKNOWN_FIELD)
+    free = list(NAME_POOL_CORE) * 3 + list(NAME_POOL_MORE)
+    for t in toks:
+        if rng.random() < 0.65:
+            nm = rng.choice(free)
+            free = [x for x in free if x != nm]
+            case['names'][str(t)] = nm
+
+
+def gen_nesting(rng, case):
+    """mark operations to be made while a user-defined __post_init__ of a type-safe dataclass is running"""
+    if rng.random() >= 0.35:
+        return
+    mode = rng.choice(NEST_MODES)
+    p = rng.choice([0.3, 0.6, 1.0])
+    for seq in [case['prefix']] + case['branches']:
+        for op in seq:
+            if op[0] in NESTABLE and rng.random() < p:
+                op.append({'nest': mode})
+
+
+def nest_of(op):
+    return op[-1].get('nest') if op and isinstance(op[-1], dict) else None
 
 
 # ------------------------------------------------------------------------------------------ Coq rendering
@@ -1056,7 +1111,7 @@ def run(pid, tier, seed, replay=None):
             cases.append(gen_case(ck.rng, tier, stream))
     impl, model = evaluate(ck, cases)
     hist = {'streams': {}, 'fields': {}, 'depth': {}, 'scope': {}, 'ops': {}, 'outcomes': {}, 'options': {}, 'decorated_layers': {},
-            'hooks': {}, 'hook_end': {}}
+            'hooks': {}, 'hook_end': {}, 'field_identifiers': {}, 'call_site': {}, 'call_site_outcomes': {}}
 
     def bump(d, k):
         d[str(k)] = d.get(str(k), 0) + 1
@@ -1088,12 +1143,18 @@ def run(pid, tier, seed, replay=None):
                         bump(hist['options'], o)
         for _, op in all_ops(c):
             bump(hist['ops'], op[0])
+            if op[0] in NESTABLE:
+                bump(hist['call_site'], nest_of(op) or 'top level')
+        for f in (f for k in c['classes'] for f in k['fields']):
+            bump(hist['field_identifiers'], (c.get('names') or {}).get(str(f['name']), 'f<token>'))
         if w is not None and 'obs' in w:
             for (_, op), o in zip(all_ops(c), w['obs']):
                 if op[0] in ('ctor', 'copy', 'deep', 'validate'):
                     bump(hist['outcomes'], f'{op[0]}:{o[0]}')
+                    if nest_of(op):
+                        bump(hist['call_site_outcomes'], f'{nest_of(op)}:{op[0]}:{o[0]}')
             n_ops += len(w['obs'])
-        key = hashlib.sha256(json.dumps([c['classes'], c['anns'], c['prefix'], c['branches'], c['heap']], sort_keys=True).encode()).hexdigest()
+        key = hashlib.sha256(json.dumps([c['classes'], c['anns'], c['prefix'], c['branches'], c['heap'], c.get('names') or {}], sort_keys=True).encode()).hexdigest()
         ck.note_case(key, nontrivial=(nf >= 2 or len(c['classes']) >= 2 or c.get('stream') != 'valid'))
         dis, v10, v11 = judge(c, w, m)
         vs = mine(v10, v11)
@@ -1123,7 +1184,10 @@ def run(pid, tier, seed, replay=None):
         ordered.append((prio, len(ordered), c, v, payload_case))
     ordered.sort(key=lambda t: (t[0], t[1]))
     for _, _, c, v, payload_case in ordered:
-        ck.violation(f'{v.get("clause")} [operation {v["op"][0]} on class K{v.get("cls")}]', payload_case, stream='dataclass',
+        site = f', made while a __post_init__ is running ({nest_of(v["op"])})' if nest_of(v['op']) else ''
+        idents = sorted((payload_case.get('names') or {}).values())
+        ck.violation(f'{v.get("clause")} [operation {v["op"][0]} on class K{v.get("cls")}{site}]'
+                     + (f' [fields named {", ".join(idents)}]' if idents else ''), payload_case, stream='dataclass',
                      extra={'violation': {k: v[k] for k in v if k != 'model'}, 'model_observation': v.get('model'),
                             'reproduces_alone': payload_case is not c},
                      matcher=lambda f, case, _v=v, _c=payload_case: matcher_fn(f, {'case': _c, 'violation': _v}))
@@ -1143,13 +1207,19 @@ def run(pid, tier, seed, replay=None):
         'class U5 defines __deepcopy__ returning self: such objects are shared by deep copies by design and excluded from "mutable object" in the specification',
         'identity of immutable values after deepcopy is not specified (compared as equal values)',
         'message texts, addresses and timing are never compared',
+        'field identifiers and the call site of an operation (top level / inside a running __post_init__ / second thread) do not exist in the model: '
+        'the model is evaluated on the token names and the top-level operation, the implementation on the rendered identifiers and the nested call',
+        'the identifier `self` is kept out of the pool (copy_with(self=v) on a field named self: TypeError, reported)',
     ]
     return ck.finish(
         rule='generated class hierarchies (0-6 fields, 0-2 levels of inheritance, decorated/undecorated subclasses, all decorator options, '
              'defaults/default_factory/init=False/compare=False, user __post_init__, module-level or function-local) x operation scripts '
              '(constructor keyword/positional, copy_with and deep_copy_with over replace-subsets, validate_types incl. after mutation, '
              'setattr/delattr of every field and a new name, comparisons, hash); streams valid / near-miss (one corrupted position) / malformed; '
-             'distinct = hash of (classes, annotations, heap, script); non-trivial = at least 2 fields or inheritance or not the valid stream',
+             'implementation-side dimensions: field identifiers from a pool of likely helper-parameter names (deep, cls, kwargs, changes, ...), '
+             'operations made while the user __post_init__ of a type-safe dataclass runs (carrier plain / slots / stacked, the case\'s own class, '
+             'a second thread) judged as the same operation at top level; '
+             'distinct = hash of (classes, annotations, heap, script, identifiers); non-trivial = at least 2 fields or inheritance or not the valid stream',
         checker_cmd=f'make -C coq Props/{pid}.vo && coqc -Q coq PV coq/Props/{pid}.v (Print Assumptions under every theorem)',
         trusted_base=['Coq 8.16.1 kernel (coqc; vm_compute for model evaluation, prog_good and the witnesses)',
                       'translator/t_dataclass.py (Python ast -> Gen/Dataclass.v), translator/t_checker.py (-> Gen/CheckerTables.v)',
